@@ -201,6 +201,9 @@ func genYOrder(r *Rng, tier string, n int, emit func(Case)) {
 		emit(mkCheckCase("module m { namespace \"urn:x\"; prefix p; revision "+dates[i]+"; }", Case{"revs": dates[i]}))
 		for j := 0; j < len(dates); j++ {
 			emit(mkCheckCase("module m { namespace \"urn:x\"; prefix p; revision "+dates[i]+"; revision "+dates[j]+"; }", Case{"revs": dates[i] + "," + dates[j]}))
+			if i < 6 && j < 6 { // an extension statement may stand anywhere, also between two revisions
+				emit(mkCheckCase("module m { namespace \"urn:x\"; prefix p; revision "+dates[i]+"; x:note \"n\"; revision "+dates[j]+"; }", Case{"revs": dates[i] + ",ext," + dates[j]}))
+			}
 		}
 	}
 	for i := 0; i < n; i++ {
@@ -214,6 +217,9 @@ func genYOrder(r *Rng, tier string, n int, emit func(Case)) {
 		text := "submodule s { belongs-to m { prefix p; } "
 		for _, d := range seq {
 			text += "revision " + d + "; "
+			if r.Chance(25) {
+				text += "x:note \"n\"; "
+			}
 		}
 		emit(mkCheckCase(text+"}", Case{"revs": strings.Join(seq, ",")}))
 	}
